@@ -48,6 +48,7 @@ func init() {
 			ruleEmitIDs(c, "C10.7")
 			ruleShortLocks(c, "C10.8")
 			rulePlumbing(c, "C10.9", "closing")
+			ruleLockBalance(c, "C10.10")
 		},
 		Explain:    "Static necessary conditions of graceful shutdown: the table insert is gated by the shutting-down predicate whose true edge is a stream-level Unavailable; the refused id is recorded first so the refusal cannot abort the tunnel; the refusal reply is sent off the loop, once; the shutdown entry points set exactly what the predicates read; Stop's structure (state, CloseSend all, wait; Add/Done pairing); and every WaitGroup wait has a release edge — GracefulStop has none (known finding F-7).",
 		Assume:     []string{"sync.WaitGroup and atomic.Bool semantics"},
